@@ -324,6 +324,7 @@ impl CaseKind for GradCase {
             format!("tracked:{}", self.leaves.iter().map(|l| if l.tracked { 'T' } else { 'u' }).collect::<String>()),
             format!("uses:{}", self.uses.max(1)),
         ];
+        let kinks = refmodel::ops::kink_count();
         for (i, s) in hist.steps.iter().enumerate() {
             match m.step(s) {
                 Ok(()) => {}
@@ -337,6 +338,9 @@ impl CaseKind for GradCase {
         }
         if !m.nodes.iter().all(|nd| nd.t.all_finite()) {
             return Outcome::discard("non-finite reference value");
+        }
+        if refmodel::ops::kink_count() > kinks && !m.nodes.iter().all(|nd| nd.exact) {
+            return Outcome::discard("a relu input is zero only up to rounding");
         }
         let exact_case = m.nodes.iter().all(|nd| nd.exact) && self.seed.as_ref().map_or(true, |s| s.iter().all(|v| is_exact_value(*v)));
         let root_numel = m.nodes.last().unwrap().t.numel();
